@@ -182,4 +182,75 @@ def specChan (c : Cfg) (ch : Chan) (rs : List Bytes) : Bytes :=
 
 def cfgNoDup (c : Cfg) : Bool := noDupKeys c.ph && noDupKeys c.locals && noDupKeys c.vdoms
 
+/-! ### a `todo` file as documented (qmail-queue(8)/INTERNALS: NUL-terminated records `u<uid>`,
+`p<pid>`, `F<sender>`, `T<recipient>`; bytes after the last NUL are not a record) -/
+
+/-- a record qmail-send knows: first byte `T`, `u`, `p` or `F` -/
+def recOk (r : Bytes) : Bool :=
+  match r with
+  | t :: _ => t == TEE || t == 117 || t == 112 || t == 70
+  | [] => false
+
+/-- the recipient of a `T` record -/
+def recipOf (r : Bytes) : Option Bytes :=
+  match r with
+  | t :: b => if t == TEE then some b else none
+  | [] => none
+
+/-- `info/<id>`: the `F` records, each with its NUL -/
+def specInfo (recs : List Bytes) : Bytes :=
+  (recs.filter (fun r => r.head? == some 70)).flatMap (fun r => r ++ [NUL])
+
+/-- what preprocessing a `todo` file must produce: `none` (the message is left in `todo/`) iff some
+record is empty or of an unknown type; otherwise `info` = the `F` records and the two channel files =
+the routed recipients of the `T` records, in input order. For **every** byte string. -/
+def specTodo (c : Cfg) (todo : Bytes) : Option TodoOut :=
+  let recs := chunks todo
+  if recs.all recOk then
+    let rs := recs.filterMap recipOf
+    some ⟨specInfo recs, specChan c .loc rs, specChan c .rem rs⟩
+  else none
+
+/-! ### the daemon as documented: "qmail-send … rereads locals and virtualdomains when it receives a
+HUP signal" — the state the documents talk about, and the predicate on an observed trace
+(`Ev`: control files edited / SIGHUP delivered / main loop passes its top / one message preprocessed
+with these outputs) that the driver evaluates on the real daemon's behaviour. -/
+
+def nulFreeB (f : Files) : Bool :=
+  [f.me, f.env, f.locals, f.ph, f.vdoms].all (fun o => match o with | some s => !s.contains NUL | none => true)
+
+structure SpecD where
+  cfg : Cfg              -- configuration in force
+  files : Files          -- control files on disk
+  pending : Bool         -- a HUP was received and has not been acted on yet
+
+/-- `none` = outside the stated domain (a control file with a NUL byte was read, or no start) -/
+def specStart (f : Files) : Option SpecD :=
+  if nulFreeB f then
+    match specCfg f with
+    | some c => some ⟨c, f, false⟩
+    | none => none
+  else none
+
+def specStep (f0 : Files) (s : SpecD) : Ev → Option SpecD
+  | .edit f => some { s with files := f }
+  | .hup => some { s with pending := true }
+  | .top =>
+    if s.pending then
+      if nulFreeB s.files then some { s with cfg := specHup s.cfg f0 s.files, pending := false } else none
+    else some s
+  | .msg _ _ => some s
+
+/-- the judgement on one event: a preprocessed message has exactly the documented outputs under the
+configuration in force (stated for configurations without a repeated virtualdomains key) -/
+def specJudge (s : SpecD) : Ev → Bool
+  | .msg todo out => !(noDupKeys s.cfg.vdoms) || out == specTodo s.cfg todo
+  | _ => true
+
+/-- the property on a whole observed trace -/
+def specTrace (f0 : Files) : Option SpecD → List Ev → Bool
+  | none, _ => true
+  | some _, [] => true
+  | some s, e :: es => specJudge s e && specTrace f0 (specStep f0 s e) es
+
 end Nq.Route
